@@ -13,7 +13,8 @@ Step program ops (each is one atomic step of one process):
   ("doit",)                   VAL := doit(expr)
   ("open_w", target)          target in {"FILE", "TMP"}: create/truncate -> partial
   ("dump", target)            -> complete(VAL)
-  ("replace",)                os.replace(TMP, FILE): atomic
+  ("replace",)                os.replace(TMP, FILE): atomic; raises FileNotFoundError if TMP is absent (possible only when
+                              the temporary name is shared between processes: CacheProgram.tmp_private is False)
   ("unlink", target)
   ("return_val",)             return VAL
   ("goto", L)
@@ -46,6 +47,7 @@ class CacheProgram:
     def __init__(self):
         self.ops: list[tuple] = []
         self.notes: list[str] = []
+        self.tmp_private = True  # whether TMP is a per-process file (else one file per key, shared)
 
     def emit(self, *op) -> int:
         self.ops.append(tuple(op))
@@ -94,6 +96,10 @@ def extract_cache_program(fn) -> CacheProgram:
                 txt = ast.unparse(val)
                 if _names(val) & env["file_vars"] or "tmp" in tgt.lower() or "temp" in tgt.lower() or ".tmp" in txt:
                     env["tmp_vars"].add(tgt)
+                    # a temporary name is private to the process only if something process-unique enters it
+                    private = any(w in txt for w in ("getpid", "uuid", "token_hex", "get_ident", "time_ns", "mkstemp", "NamedTemporaryFile"))
+                    prog.tmp_private = getattr(prog, "tmp_private", True) and private
+                    prog.notes.append(f"temporary file name {txt!r}: {'private to the process' if private else 'SHARED by all processes working on the same key'}")
                 else:
                     env["file_vars"].add(tgt)
                 return
@@ -101,6 +107,8 @@ def extract_cache_program(fn) -> CacheProgram:
                 return  # directory computations
             if cn in ("mkstemp", "NamedTemporaryFile", "mktemp"):
                 env["tmp_vars"].add(tgt)
+                if cn == "mktemp":
+                    prog.tmp_private = False  # the name can be reused before the file exists
                 return
             raise Unsupported(f"assignment not understood: {ast.unparse(s)}")
         if isinstance(s, ast.If):
